@@ -326,8 +326,22 @@ def inline_hir(node, new_hir, counter, depth=0):
                 stmts.append({"k": "let", "pat": p, "init": a, "ln": node.get("ln")})
         if mapping:
             body = _subst(body, mapping)
+        # the helper's own `return`s and `?`s leave the helper, not the caller: they carry the id of this inlined instance
+        def mark(n_):
+            if isinstance(n_, list):
+                for x_ in n_:
+                    mark(x_)
+            elif isinstance(n_, dict):
+                if n_.get("k") == "closure":
+                    return
+                if (n_.get("k") == "ret" or (n_.get("k") == "match" and str(n_.get("src", "")).startswith("TryDesugar"))) and "of" not in n_:
+                    n_["of"] = off
+                for x_ in n_.values():
+                    if isinstance(x_, (dict, list)):
+                        mark(x_)
+        mark(body)
         body = inline_hir(body, new_hir, counter, depth + 1)
-        return {"k": "block", "stmts": stmts, "expr": body, "ln": node.get("ln"), "inlined": h["path"]}
+        return {"k": "block", "stmts": stmts, "expr": body, "ln": node.get("ln"), "inlined": h["path"], "inl_id": off}
     return node
 
 
@@ -413,10 +427,12 @@ def _fuse_consumer(st, parts):
         init, arms = e.get("scrut"), [(a["pat"], a["body"]) for a in e["arms"]]
     else:
         return None
-    pr = parts(init)
+    pr = parts(init, True)
     if not pr or pr[1] is None:
         return None
     pre, tailv = pr
+    if _find_all(pre, lambda z: z.get("k") == "match" and z.get("of") is not None and z.get("of") == init.get("inl_id")):
+        return None        # a `?` of the helper would become a `?` of the caller
     def rets(n, acc):
         if isinstance(n, list):
             for x in n:
@@ -425,7 +441,8 @@ def _fuse_consumer(st, parts):
             if n.get("k") == "closure":
                 return
             if n.get("k") == "ret":
-                acc.append(n)
+                if n.get("of") == init.get("inl_id"):
+                    acc.append(n)
                 return
             for x in n.values():
                 if isinstance(x, (dict, list)):
@@ -540,9 +557,14 @@ def hoist_inlined(node):
     node = {k: hoist_inlined(v) for k, v in node.items()}
     if node.get("k") != "block" or not isinstance(node.get("stmts"), list):
         return node
-    def parts(e):
-        """(statements, tail) of an inlined-helper block, None when e is not one"""
+    def own_returns(e):
+        return bool(_find_all(e, lambda z: z.get("of") is not None and z.get("of") == e.get("inl_id") and (z.get("k") == "ret" or z.get("k") == "match")))
+    def parts(e, for_fusion=False):
+        """(statements, tail) of an inlined-helper block, None when e is not one (or, outside fusion, when it still contains
+        `return`s / `?`s of the helper: spliced into the caller they would read as the caller's)"""
         if not (isinstance(e, dict) and e.get("k") == "block" and e.get("inlined") and e.get("inlined") != "local closure"):
+            return None
+        if not for_fusion and e.get("inl_id") is not None and own_returns(e):
             return None
         pre = list(e.get("stmts") or [])
         inner = e.get("expr")
